@@ -8,7 +8,7 @@ import common
 SENTINEL = "# sentinel: previous target content\n"
 
 
-def run(files, main="main.oal", base=None, via_config=False, target_exists=False, workdir=None, timeout=60.0, extra_args=None):
+def run(files, main="main.oal", base=None, via_config=False, target_exists=False, workdir=None, timeout=60.0, extra_args=None, env_extra=None):
     """files: {relative path: text}. Returns dict(exit, stderr, stdout, target: text|None, target_changed, timed_out)."""
     common.build_bins()
     d = workdir or common.workdir("cli")
@@ -52,6 +52,8 @@ def run(files, main="main.oal", base=None, via_config=False, target_exists=False
     try:
         env = dict(os.environ)
         env["RUST_BACKTRACE"] = "0"
+        if env_extra:
+            env.update(env_extra)
         p = subprocess.run(args, cwd=d, stdout=subprocess.PIPE, stderr=subprocess.PIPE, timeout=timeout, env=env)
         rc, out, err, to = p.returncode, p.stdout.decode("utf-8", "replace"), p.stderr.decode("utf-8", "replace"), False
     except subprocess.TimeoutExpired as e:
